@@ -17,9 +17,9 @@ is a bijection between accepted token lists and grammatical trees):
   ?parallel_terminal: (parallel_terminal ",")? series_terminal        (lark:44)
   ?start: parallel_terminal                     (lark:47)
 
-Which trees are derivations of which nonterminal is the function `kind`
+Which trees are derivations of which nonterminal is the function `shape`
 (least nonterminal deriving the tree) — `*` followed by a connector, or inside
-brackets, has no kind.
+brackets, has no shape; `namesOk` is the lexical side condition on NAMEs.
 -/
 import TraitsVerif.Model.DslLex
 namespace TraitsVerif.Model.Dsl
@@ -60,35 +60,46 @@ def validName (uw : Char → Bool) : Name → Bool
   | [] => false
   | c :: cs => isWordStart c && cs.all (isWordChar uw)
 
-/-- The least nonterminal deriving the tree; `none` = not a derivation tree. -/
-def kind (uw : Char → Bool) : Cst → Option Kind
-  | .trait n => if validName uw n && n != itemsKw then some .elem else none
+/-- The least nonterminal deriving the tree, names not looked at;
+`none` = not a derivation tree. -/
+def shape : Cst → Option Kind
+  | .trait _ => some .elem
   | .items => some .elem
-  | .metadata n => if validName uw n then some .elem else none
+  | .metadata _ => some .elem
   | .any => some .anyK
   | .group p =>
-    match kind uw p with
+    match shape p with
     | some k => if k.lePar then some .elem else none
     | none => none
   | .ser l _ r =>
-    match kind uw l, kind uw r with
+    match shape l, shape r with
     | some kl, some kr =>
       if kl.leSer then
         (if kr == .elem then some .ser else if kr == .anyK then some .serT else none)
       else none
     | _, _ => none
   | .par l r =>
-    match kind uw l, kind uw r with
+    match shape l, shape r with
     | some kl, some kr =>
       if kl.lePar && kr.leSer then some .par
       else if kr.leSerT then some .parT
       else none
     | _, _ => none
 
-/-- A derivation tree of `start`. -/
-def grammatical (uw : Char → Bool) (c : Cst) : Bool := (kind uw c).isSome
+/-- The NAME tokens are identifiers; a trait name is not the keyword `items`
+(that text is the ITEMS token there; after `+` it is a NAME). -/
+def namesOk (uw : Char → Bool) : Cst → Bool
+  | .trait n => validName uw n && n != itemsKw
+  | .items => true
+  | .metadata n => validName uw n
+  | .any => true
+  | .group p => namesOk uw p
+  | .ser l _ r => namesOk uw l && namesOk uw r
+  | .par l r => namesOk uw l && namesOk uw r
 
-def Conn.tok (c : Conn) : Tok := .conn c
+/-- A derivation tree of `start` (every tree with a shape derives from
+`parallel_terminal`). -/
+def grammatical (uw : Char → Bool) (c : Cst) : Bool := (shape c).isSome && namesOk uw c
 
 /-- The token string of a tree (brackets only where the tree has a group). -/
 def toks : Cst → List Tok
@@ -100,21 +111,22 @@ def toks : Cst → List Tok
   | .ser l c r => toks l ++ .conn c :: toks r
   | .par l r => toks l ++ .comma :: toks r
 
-/-- Text of a token list with the given whitespace runs: `ws[i]` goes before
-token `i` (missing entries = no whitespace), `trail` after the last token. -/
-def renderToks : List Tok → List (List Char) → List Char → List Char
-  | [], _, trail => trail
-  | t :: ts, [], trail => t.text ++ renderToks ts [] trail
-  | t :: ts, w :: ws, trail => w ++ t.text ++ renderToks ts ws trail
-
-/-- A rendering of a tree: its tokens with arbitrary whitespace around them.
-(Redundant brackets are `group` nodes of the tree itself.) -/
-def render (c : Cst) (ws : List (List Char)) (trail : List Char) : List Char :=
-  renderToks (toks c) ws trail
+/-- Text of a decorated token list: each token with the blanks before it,
+`trail` after the last token. -/
+def renderD : List (List Char × Tok) → List Char → List Char
+  | [], trail => trail
+  | (w, t) :: r, trail => w ++ t.text ++ renderD r trail
 
 def allWs (w : List Char) : Bool := w.all isWs
 
-/-- The canonical text (no whitespace). -/
-def Cst.text (c : Cst) : List Char := render c [] []
+/-- `s` is a rendering of the tree `c`: its tokens with arbitrary blanks
+(possibly none) before, between and after them.  Redundant brackets are
+`group` nodes of the tree itself. -/
+def IsRendering (c : Cst) (s : List Char) : Prop :=
+  ∃ (d : List (List Char × Tok)) (trail : List Char),
+    d.map Prod.snd = toks c ∧ (∀ p ∈ d, allWs p.1 = true) ∧ allWs trail = true ∧ s = renderD d trail
+
+/-- The canonical text (no blanks). -/
+def Cst.text (c : Cst) : List Char := renderD ((toks c).map fun t => ([], t)) []
 
 end TraitsVerif.Model.Dsl
